@@ -92,7 +92,9 @@ impl Write for Sink {
             s.events.push(SinkEv::WriteFail {
                 offered_len: buf.len(),
             });
-            return Err(io::Error::new(io::ErrorKind::Other, "injected sink failure"));
+            // any kind but Interrupted, varied per call
+            let kind = crate::src::FAIL_KINDS[(c as usize + buf.len()) % crate::src::FAIL_KINDS.len()];
+            return Err(io::Error::new(kind, "injected sink failure"));
         }
         if s.policy.zero_at.contains(&c) && !buf.is_empty() {
             s.events.push(SinkEv::WriteZero {
